@@ -13,7 +13,7 @@
    implementation output): merge_leaves below depth 1, merge_children / merge_leaves onto an existing destination,
    replace from an unrelated branch of the same tree, delete_children combined with overriding/merge flags, the
    from==to / nested variants, partial from-paths and multi-character separators in the string layer. *)
-From BT Require Import Base.Prelude Base.Str Base.Rose Algo.Modify Spec.PC08 Algo.ModifyProofs.
+From BT Require Import Base.Prelude Base.Str Base.StrSep Base.Rose Algo.Modify Spec.PC08 Algo.ModifyProofs.
 
 (* One call with several pairs = the same single-pair calls in sequence (stopping at the first exception),
    for every pair list that passes the argument checks, all five functions, all flags.
@@ -248,6 +248,29 @@ Theorem C08_shift_whole_call : forall (c0 : N) sk t p x comps PX,
 Proof. exact C08_shift_whole_call_stmt. Qed.
 Print Assumptions C08_shift_whole_call.
 
+(* The same for a separator of ANY positive length a :: sp' (Base/StrSep.v).  Guard: every name on the two paths
+   is non-empty and contains no CHARACTER of the separator (sgood) — with rstrip/lstrip stripping character sets
+   this, not substring-freeness, is what the code needs (finding K3 lives between the two).  C08_shift_whole_call
+   is the instance sp' = [] (sgood [c] w <-> w <> [] /\ ~ In c w, by sfree_one). *)
+Theorem C08_shift_whole_call_multi : forall (a : N) (sp' : str) sk t p x comps PX,
+  let sep := a :: sp' in
+  let fl := MF sk false false false false true in
+  let Q := tname t :: comps in
+  wf_t t -> p <> [] -> tget t p = Some x -> tpath t p = Some PX ->
+  Forall (sgood (a :: sp')) PX -> Forall (sgood (a :: sp')) Q ->
+  pfx PX Q = false -> has (rows t) (Q ++ [tname x]) = false ->
+  let i := MI OpShift fl sep t sep (T None [] [] []) sep [join sep PX] [Some (join sep (Q ++ [tname x]))] in
+  valid_call i = true
+  /\ exists t2, run i = ([t2], None)
+     /\ rows t2 = insert_last (minus (ensure (rows t) [tname t] comps) PX) Q (rows_from Q x)
+     /\ edit_cs false true fl (rows t) (rows t) PX (Some (Q ++ [tname x])) = PNext (rows t2) (rows t2).
+Proof. exact C08_shift_whole_call_multi_stmt. Qed.
+Print Assumptions C08_shift_whole_call_multi.
+
+Theorem C08_sepfree_is_sgood : forall c w, sepfree c w <-> sgood [c] w.
+Proof. intros c w. unfold sepfree, sgood. rewrite sfree_one. tauto. Qed.
+Print Assumptions C08_sepfree_is_sgood.
+
 (* ---- the hypotheses are satisfiable by non-trivial inputs ------------------------------------ *)
 
 Ltac conj := repeat match goal with |- _ /\ _ => split end.
@@ -393,3 +416,23 @@ Proof.
   { intros n Hn. split; [discriminate|]. intros [E|[]]. congruence. }
   conj; try reflexivity; repeat constructor; apply S; discriminate.
 Qed.
+
+(* the multi-character theorem applies to shift r->a->b to r->d->n->b on ex_tree with sep = tree.sep = "->",
+   and the model run gives the same tree as with "/" *)
+Example C08_shift_whole_call_multi_nonvacuous :
+  Forall (sgood [45%N; 62%N]) [[114%N]; [97%N]; [98%N]] /\ Forall (sgood [45%N; 62%N]) (tname ex_tree :: [[100%N]; [110%N]])
+  /\ fst (run (MI OpShift ex_fl [45;62]%N ex_tree [45;62]%N (T None [] [] []) [45;62]%N
+                  [join [45;62]%N [[114%N]; [97%N]; [98%N]]] [Some (join [45;62]%N [[114%N]; [100%N]; [110%N]; [98%N]])]))
+      = [T (Some 0) [114%N] [] [ T (Some 1) [97%N] [] [T (Some 4) [99%N] [] []];
+                               T (Some 5) [100%N] [] [T None [110%N] [] [ex_x]] ]].
+Proof.
+  assert (S : forall n, n <> 45%N -> n <> 62%N -> sgood [45%N; 62%N] [n]).
+  { intros n H1 H2. split; [discriminate|]. intros ch [<-|[<-|[]]] [E|[]]; congruence. }
+  conj; try (vm_compute; reflexivity); repeat constructor; apply S; discriminate.
+Qed.
+
+(* empty separators are modelled: an empty tree separator with a to-path is refused (split raises ValueError) *)
+Example C08_empty_tree_sep_refused :
+  snd (run (MI OpShift ex_fl [47%N] ex_tree [] (T None [] [] []) [] [[114;47;97]%N] [Some [114;47;100;47;97]%N]))
+  = Some ValueError.
+Proof. vm_compute. reflexivity. Qed.
